@@ -63,8 +63,20 @@ func (o *wgOutcome) verdict() string {
 	return "accepted"
 }
 
+// zeroValueBuilders: the builder is an exported struct without exported fields
+// and Build used none: a caller may as well write new(Builder), &Builder{} or
+// var b Builder. Every seventh workload builds that way.
+var zeroValueBuilders bool
+
+func freshBuilder() *graph.WeightedAuthorizationModelGraphBuilder {
+	if zeroValueBuilders {
+		return new(graph.WeightedAuthorizationModelGraphBuilder)
+	}
+	return graph.NewWeightedAuthorizationModelGraphBuilder()
+}
+
 func doBuild(pm *openfgav1.AuthorizationModel) (out wgOutcome) {
-	return doBuildWith(graph.NewWeightedAuthorizationModelGraphBuilder(), pm)
+	return doBuildWith(freshBuilder(), pm)
 }
 
 func doBuildWith(builder *graph.WeightedAuthorizationModelGraphBuilder, pm *openfgav1.AuthorizationModel) (out wgOutcome) {
@@ -668,7 +680,7 @@ func (c *wgCtx) check0(cfg simrt.Config) ([]mismatch, simrt.Stats, string) {
 			simrt.Begin(cfg)
 			simrt.CountFault("history.warm")
 			simrt.Run([]func(){func() {
-				builder := graph.NewWeightedAuthorizationModelGraphBuilder()
+				builder := freshBuilder()
 				for _, pm := range pre {
 					o := doBuildWith(builder, pm)
 					// the caller owns what was returned: it may write all over it
@@ -846,7 +858,7 @@ func (c *wgCtx) check0(cfg simrt.Config) ([]mismatch, simrt.Stats, string) {
 			out       wgOutcome
 		}
 		var results []res
-		shared := graph.NewWeightedAuthorizationModelGraphBuilder()
+		shared := freshBuilder()
 		fns := make([]func(), len(wl.Tasks))
 		for t, list := range wl.Tasks {
 			t, list := t, list
@@ -855,7 +867,7 @@ func (c *wgCtx) check0(cfg simrt.Config) ([]mismatch, simrt.Stats, string) {
 					simrt.Note("wg.build", "invoke", int64(idx))
 					builder := shared
 					if !wl.SharedBuilder {
-						builder = graph.NewWeightedAuthorizationModelGraphBuilder()
+						builder = freshBuilder()
 					}
 					o := doBuildWith(builder, pms[idx])
 					simrt.Note("wg.build", "return", int64(idx))
@@ -1036,6 +1048,84 @@ func mustJSON(v any) json.RawMessage {
 	return b
 }
 
+// labelCollisionProbe: labels the library generates for its own nodes (operator
+// nodes) live in the same namespace as the names of the model. On the pinned
+// tree they are ULIDs, different in every build. If a second build of the same
+// model gives an operator node the very same unique label again, the labels are
+// a function of the model - and a model may then contain a type of exactly that
+// name: the model is extended by such a type (assignable in a new relation, as
+// plain type and as public type) and built again; it must be accepted and every
+// relation of the original model must keep its weights and wildcard lists.
+func labelCollisionProbe(c *wgCtx, b *BatchResult) (msg string) {
+	defer func() {
+		if r := recover(); r != nil {
+			msg = fmt.Sprintf("panic while building a model that contains a type named like a generated label: %v", r)
+		}
+	}()
+	second, err := freshBuilder().Build(proto.Clone(c.pm).(*openfgav1.AuthorizationModel))
+	if err != nil {
+		return ""
+	}
+	var stable []string
+	for l, n := range second.GetNodes() {
+		if n.GetNodeType() != graph.OperatorNode {
+			continue
+		}
+		if o, ok := c.canon.G.GetNodes()[l]; ok && o.GetNodeType() == graph.OperatorNode {
+			stable = append(stable, l)
+		}
+	}
+	if len(stable) == 0 {
+		return ""
+	}
+	sort.Strings(stable)
+	b.Probes["models_with_reproducible_generated_labels"]++
+	if len(stable) > 4 {
+		stable = stable[:4]
+	}
+	for _, l := range stable {
+		m2 := c.wl.Model.clone()
+		if m2.typeByName(l) != nil {
+			continue
+		}
+		m2.Types = append([]*Type{{Name: l}}, m2.Types...)
+		host := &Type{Name: "zz_probe_host", Relations: []*Relation{{Name: "probe", Expr: &Expr{Kind: KThis}, Direct: []Ref{{Type: l}, {Type: l, Wild: true}}}}}
+		for m2.typeByName(host.Name) != nil {
+			host.Name += "x"
+		}
+		m2.Types = append(m2.Types, host)
+		g2, err := freshBuilder().Build(m2.toProto())
+		if err != nil {
+			return fmt.Sprintf("operator nodes get the same unique label %q in every build of this model; with a type of that name added (assignable in a new relation of a new type) the model is rejected: %v", l, err)
+		}
+		for id, n := range c.canon.G.GetNodes() {
+			if n.GetNodeType() != graph.SpecificTypeAndRelation {
+				continue
+			}
+			n2, ok := g2.GetNodes()[id]
+			if !ok {
+				return fmt.Sprintf("with a type named like the generated label %q added, relation %s is missing from the graph", l, id)
+			}
+			w1, w2 := fmtWeights(n.GetWeights()), fmtWeights(n2.GetWeights())
+			a1 := append([]string(nil), n.GetWildcards()...)
+			a2 := append([]string(nil), n2.GetWildcards()...)
+			sort.Strings(a1)
+			sort.Strings(a2)
+			if w1 != w2 || strings.Join(a1, ",") != strings.Join(a2, ",") {
+				return fmt.Sprintf("operator nodes get the same unique label %q in every build; with a type of that name added, relation %s of the original model has weights %s wildcards %v instead of %s %v", l, id, w2, a2, w1, a1)
+			}
+		}
+		if pn, ok := g2.GetNodes()[host.Name+"#probe"]; !ok || fmtWeights(pn.GetWeights()) != fmtWeights(map[string]int{l: 1}) {
+			got := "missing"
+			if ok {
+				got = fmtWeights(pn.GetWeights())
+			}
+			return fmt.Sprintf("with a type named like the generated label %q added, the relation assignable to it has weights %s", l, got)
+		}
+	}
+	return ""
+}
+
 // massRepetition builds the model under test n times on fresh builders, no
 // simulation attached, and reports the first build whose verdict differs.
 func massRepetition(c *wgCtx, n int) (msg string) {
@@ -1054,7 +1144,7 @@ func massRepetition(c *wgCtx, n int) (msg string) {
 		want = "accepted"
 	}
 	for i := 0; i < n; i++ {
-		_, err := graph.NewWeightedAuthorizationModelGraphBuilder().Build(pm)
+		_, err := freshBuilder().Build(pm)
 		got := "accepted"
 		if err != nil {
 			got = "rejected"
@@ -1148,6 +1238,10 @@ type wgParams struct {
 
 func wgRunOne(b *BatchResult, prop string, seed, run uint64, p wgParams) {
 	r := newRNG(seed, hashStr("wgsim"), hashStr(prop), run)
+	zeroValueBuilders = run%7 == 3
+	if zeroValueBuilders {
+		b.Probes["workloads_with_zero_value_builders"]++
+	}
 	k := biasKnobs(prop, r, drawKnobs(r))
 	m := genModel(r, k)
 	if r.chance(8) {
@@ -1158,7 +1252,7 @@ func wgRunOne(b *BatchResult, prop string, seed, run uint64, p wgParams) {
 	} else if (prop == "C11" && r.chance(30)) || (prop == "C06" && r.chance(10)) || (prop == "C04" && r.chance(3)) {
 		m = genWildcardLattice(r)
 		b.Mix["wildcard_lattice_models"]++
-	} else if prop == "C11" && r.chance(2) {
+	} else if (prop == "C11" && r.chance(4)) || r.chance(1) {
 		m = genOddNames(r)
 		b.Mix["odd_name_models"]++
 	} else if r.chance(2) {
@@ -1194,7 +1288,9 @@ func wgRunOne(b *BatchResult, prop string, seed, run uint64, p wgParams) {
 	} else if r.chance(3) && injectInterning(r, m) {
 		b.Mix["models_with_interned_rewrites"]++
 	}
-	if (prop == "C05" || prop == "C04") && r.chance(2) && injectEmptyDirect(r, m) {
+	if (prop == "C05" || prop == "C04" || prop == "C10") && r.chance(2) && injectUnsetOperand(r, m) {
+		b.Mix["models_with_an_unset_operand"]++
+	} else if (prop == "C05" || prop == "C04") && r.chance(2) && injectEmptyDirect(r, m) {
 		b.Mix["models_with_empty_direct_assignment_under_operator"]++
 	}
 	wl := &wlWG{Variant: "base", Model: m}
@@ -1211,6 +1307,14 @@ func wgRunOne(b *BatchResult, prop string, seed, run uint64, p wgParams) {
 	}
 	b.Workloads++
 	b.keySet[hashStr(modelKey(m))] = true
+	if !slow && c.canon.accepted() {
+		if msg := labelCollisionProbe(c, b); msg != "" {
+			for _, p := range []string{"C10", "C04", "C05", "C11", "C06"} {
+				b.violation(Violation{Property: p, Engine: "wgsim", Class: "structure.generated_label_collides", Detail: msg, Seed: seed, Run: run,
+					Workload: mustJSON(wl), Sched: simrt.Config{}, SchedName: "canonical, model extended by a type named like a generated label", Describe: m.describe()})
+			}
+		}
+	}
 	if run%2000 == 11 && !slow && c.canon.Panic == "" {
 		// mass repetition: the same small model a hundred thousand times in one
 		// process (counters that wrap, marks that are truncated, tables that fill
